@@ -4,6 +4,7 @@ package symgo
 // re-execution, path condition kept in one incremental solver process.
 
 import (
+	"sync/atomic"
 	"fmt"
 	"os"
 	"sort"
@@ -93,6 +94,9 @@ type Explorer struct {
 	Stubbed        map[string]bool // functions replaced by stubs/models
 	Observations   []map[string]string
 	curObs         map[string]string
+	Abandoned      bool   // exploration stopped because another instance reported a finding
+	StopFlag       *int32 // Engine.Stop
+	StopOnFinding  bool   // a finding of this harness decides the check (not a known-finding witness)
 	Harness        string
 	Params         map[string]int
 	Tier           string
@@ -194,7 +198,17 @@ func (e *Explorer) assume(t *smt.Term) {
 	}
 }
 
+// stopped aborts the current path once another harness instance has reported a
+// finding (the check is decided; see Engine.Stop).
+func (e *Explorer) stopped() {
+	if e.StopFlag != nil && atomic.LoadInt32(e.StopFlag) != 0 {
+		e.Abandoned = true
+		panic(abortPath{abortAfterFinding, "abandoned"})
+	}
+}
+
 func (e *Explorer) check(extra ...*smt.Term) smt.Result {
+	e.stopped()
 	t0 := time.Now()
 	r, _ := e.S.Check(extra, nil)
 	if d := time.Since(t0); d > 3*time.Second && os.Getenv("VERIF_PROGRESS") != "" {
@@ -408,6 +422,9 @@ func (e *Explorer) addFinding(kind, msg, pos string, model map[string]smt.Value)
 		}
 	}
 	e.Findings = append(e.Findings, f)
+	if e.StopOnFinding && e.StopFlag != nil && kind != "cover" {
+		atomic.StoreInt32(e.StopFlag, 1)
+	}
 }
 
 func (e *Explorer) trailInts() []int {
@@ -430,6 +447,7 @@ func (e *Explorer) inconclusive(kind, msg string) {
 // decide runs a final obligation query "pc ∧ neg" with escalation to the
 // one-shot portfolio when the incremental solver gives up.
 func (e *Explorer) decide(neg *smt.Term) (smt.Result, map[string]smt.Value) {
+	e.stopped()
 	t0 := time.Now()
 	defer func() {
 		if d := time.Since(t0); d > 3*time.Second && os.Getenv("VERIF_PROGRESS") != "" {
